@@ -2,7 +2,7 @@ SPECIFICATION Spec
 CONSTANTS
   U = 4
   NES = {2,3,5,6,7,9,10,11}
-  NESb = {2,3,5,6,9,10}
+  NESb = {2,5,6,9,10}
   KMin = 2
   KMax = 3
   TES = {1,3,4,5,7,11,13}
